@@ -88,6 +88,68 @@ theorem signature_preserved (W : World) (recipe : List Provider) (fuel : Nat) (s
       obtain ⟨c, _, rfl⟩ := h
       rfl
 
+/-! ### Optional: the guard is the test for `None`, nothing else -/
+
+/-- **Specification side.**  For a pair `Optional[a] -> Optional[b]` (no user coercer registered for the
+    pair itself, the two union types are not models) the documented conversion is: `None` stays `None`, and
+    **every other value** — whatever Python's `bool()` says about it: `0`, `0.0`, `""`, `False`, `Decimal(0)`,
+    an empty list / dict, a model without fields, a model defining `__bool__` / `__len__` — is converted by the
+    conversion of the wrapped pair `a -> b`. -/
+theorem optional_spec_none_test (W : World) (recipe : List Provider) (params : List CtxParam)
+    (pvals : List (Name × Val)) (n : Nat) (sl dl : Loc) (srest drest : LocStack) (a b : Ty)
+    (hs : sl.ty = .opt a) (hd : dl.ty = .opt b)
+    (hu : userCoercer recipe (sl :: srest) (dl :: drest) = none)
+    (hsh : W.inShape dl.ty = none ∨ W.outShape sl.ty = none) :
+    coerceSpec W recipe params pvals (n + 1) (sl :: srest) (dl :: drest) .none = some .none ∧
+    ∀ v, v ≠ .none →
+      coerceSpec W recipe params pvals (n + 1) (sl :: srest) (dl :: drest) v =
+        coerceSpec W recipe params pvals n (gpLoc a 0 :: sl :: srest) (gpLoc b 0 :: dl :: drest) v := by
+  rw [hs, hd] at hsh
+  constructor
+  · simp only [coerceSpec, hu, hs, hd]
+    rcases hsh with h | h
+    · simp [h]
+    · cases hin : W.inShape (.opt b) <;> simp [h]
+  · intro v hv
+    simp only [coerceSpec, hu, hs, hd]
+    rcases hsh with h | h
+    · cases v <;> simp_all
+    · cases hin : W.inShape (.opt b) <;> cases v <;> simp_all
+
+/-- **Generated code.**  Whatever closure the generator returns for an `Optional[a] -> Optional[b]` pair
+    (`optional_coercer` around the inner coercer, or the as-is stub when the inner coercer is as-is), it maps
+    `None` to `None` and sends **every value other than `None`** — the falsy ones included — through the
+    documented conversion of the wrapped pair.  A guard by truth value (`data and coercer(data)`) would
+    violate the second part for `0`, `""`, `[]`, a field-less model, … -/
+theorem optional_converter_none_test (W : World) (hW : W.WF) (recipe : List Provider) (params : List CtxParam)
+    (ctxVals : List Val) (hlen : ctxVals.length = params.length) (hnd : (params.map (·.name)).Nodup)
+    (n : Nat) (sl dl : Loc) (srest drest : LocStack) (a b : Ty)
+    (hs : sl.ty = .opt a) (hd : dl.ty = .opt b)
+    (hu : userCoercer recipe (sl :: srest) (dl :: drest) = none)
+    (hsh : W.inShape dl.ty = none ∨ W.outShape sl.ty = none)
+    (c : Coercer) (h : mkCoercer W recipe params (n + 1) (sl :: srest) (dl :: drest) = some c) :
+    applyCoercer c .none (packCtx ctxVals) = some .none ∧
+    ∀ v, v ≠ .none →
+      applyCoercer c v (packCtx ctxVals) =
+        coerceSpec W recipe params (pvalsOf params ctxVals) n (gpLoc a 0 :: sl :: srest) (gpLoc b 0 :: dl :: drest) v := by
+  have hspec := optional_spec_none_test W recipe params (pvalsOf params ctxVals) n sl dl srest drest a b hs hd hu hsh
+  have hc := convert_eq_spec W hW recipe params ctxVals hlen hnd (n + 1) (sl :: srest) (dl :: drest) c h
+  exact ⟨by rw [hc]; exact hspec.1, fun v hv => by rw [hc]; exact hspec.2 v hv⟩
+
+/-- the same for the other structural coercers: an **empty** sequence is not handed over as it is, the
+    destination's factory builds a new (empty) container — `[]` for `List[a] -> Tuple[b, ...]` becomes `()` -/
+theorem empty_iterable_rebuilt (W : World) (recipe : List Provider) (params : List CtxParam)
+    (pvals : List (Name × Val)) (n : Nat) (sl dl : Loc) (srest drest : LocStack) (o₁ o : IterOrigin) (a b : Ty)
+    (k : IterOrigin) (hs : sl.ty = .iter o₁ a) (hd : dl.ty = .iter o b)
+    (hu : userCoercer recipe (sl :: srest) (dl :: drest) = none)
+    (hsh : W.inShape dl.ty = none ∨ W.outShape sl.ty = none) :
+    coerceSpec W recipe params pvals (n + 1) (sl :: srest) (dl :: drest) (.seq k []) = some (.seq o.factory []) := by
+  rw [hs, hd] at hsh
+  simp only [coerceSpec, hu, hs, hd]
+  rcases hsh with h | h
+  · simp [h]
+  · cases hin : W.inShape (.iter o b) <;> simp [h]
+
 /-! ### which source a field is linked to -/
 
 /-- **Recipe order decides.**  If every provider before `p` declines the
@@ -289,6 +351,32 @@ example :
        .link (Pred.name "a") (Pred.name "c") none] 5 exSig [exSrc, .atom "int" "9"] =
       some (.obj 1 [("a", .atom "int" "9"), ("c", .atom "Decimal" "Decimal('1')"), ("b", .atom "int" "2")]) := by
   rfl
+
+/-! falsy values through `Optional`: `Optional[int] -> Optional[str]` with `coercer(int, str, f₇)`,
+    `Optional[List[int]] -> Optional[Tuple[int, ...]]`, `Optional[S0] -> Optional[D0]` for field-less models -/
+
+def exStr : Ty := .leaf 2
+def exTopIs (t : Ty) : Pred := fun st => match st with | l :: _ => l.ty == t | [] => false
+def exIntToStr : Provider := .coercer (exTopIs exInt) (exTopIs exStr) 7
+def exEmptyS : Ty := .model 5 0
+def exEmptyD : Ty := .model 6 0
+def exOptWorld : World where
+  outShape t := if t = exEmptyS then some { fields := [] } else none
+  inShape t := if t = exEmptyD then some { cls := 6, fields := [], params := [] } else none
+  asIs s d := s == d
+def exOptSig (s d : Ty) : Signature := { params := [⟨"x", .posOnly, .opt s, none⟩], ret := .opt d }
+
+/-- `0` is not `None`: the inner coercer is applied (`f₇(0)`), the value is not passed through -/
+example : (provideConverter exOptWorld [exIntToStr] 5 (exOptSig exInt exStr)).map (fun c => c.call [.atom "int" "0"] []) =
+    some (some (.app 7 [.atom "int" "0"] [])) := by rfl
+example : (provideConverter exOptWorld [exIntToStr] 5 (exOptSig exInt exStr)).map (fun c => c.call [.none] []) =
+    some (some .none) := by rfl
+/-- an empty list under `Optional` becomes an empty tuple -/
+example : (provideConverter exOptWorld [] 5 (exOptSig (.iter .list exInt) (.iter .tuple exInt))).map
+    (fun c => c.call [.seq .list []] []) = some (some (.seq .tuple [])) := by rfl
+/-- a field-less source model under `Optional` is rebuilt as the destination model -/
+example : (provideConverter exOptWorld [] 5 (exOptSig exEmptyS exEmptyD)).map (fun c => c.call [.obj 5 []] []) =
+    some (some (.obj 6 [])) := by rfl
 
 end Examples
 
